@@ -120,5 +120,8 @@ OpenRtFor(a) ==
 OpenRtPool(lazy) == UNION {OpenRtFor(a) : a \in {<<0, 1>>, <<0, 65535>>, <<1, 0>>, <<65535, 65535>>}}
 NotifPool(lazy) == {[code |-> c, sub |-> s, data |-> Zeros(n)] : c \in {0, 1, 2, 3, 4, 5, 6, 7, 255}, s \in {0, 1, 2, 3, 4, 5, 6, 7, 8, 9, 10, 11, 255}, n \in 0..3}
               \cup {[code |-> 2, sub |-> 2, data |-> <<253, 234>>], [code |-> 6, sub |-> 2, data |-> [i \in 1..60 |-> i]]}
+              \* data that looks like the start of a message (all ones), for the codes next to it
+              \cup {[code |-> c, sub |-> s, data |-> [i \in 1..n |-> 255]] : c \in {6, 255}, s \in {2, 255}, n \in {1, 13, 14, 15, 16, 17, 19, 40}}
+              \cup {[code |-> 255, sub |-> 255, data |-> [i \in 1..14 |-> 255] \o <<0, 24, 3, 6, 2, 98, 121, 101>>]}
 RRPool(lazy) == {[typ |-> t, afi |-> a, res |-> r, safi |-> s] : t \in {5, 128}, a \in {0, 1, 2, 25, 16388, 65535}, r \in {0, 1, 255}, s \in {0, 1, 2, 4, 70, 71, 73, 128, 133, 255}}
 =============================================================================
